@@ -82,7 +82,7 @@ def judge(chk, trace, mm):
         else:
             key = f"{kind}:{d['kind']}"
         chk.classify(key, f"{kind} in {d['kind']} loader: {d['detail'] or d['post']} alloc={d['alloc']} size={d['size']} case {d['what'][:200]}",
-                     [line_of(trace, m[1])], extra=m)
+                     lambda m=m, trace=trace: [line_of(trace, m[1])], extra=m)
 
 
 def run(tier, seed):
